@@ -218,6 +218,107 @@ PROPS = {
         "level_note": "Trusted: Literal(lex, datatype, lang) re-creates the literal (normalisation idempotent - C09 bounded), "
                       "dict literal semantics (A3), PyVC/z3.",
     },
+    "C14": {
+        "modules": ["contracts.c14_diff"],
+        "claim_level": "other",
+        "design_ref": "6.14",
+        "technique": TECH,
+        "clauses_decided": [
+            "graph_diff(g1, g2) returns (C1 & C2, C1 - C2, C2 - C1) for the canonical graphs C1, C2 of its inputs: 'both'+"
+            "'first' = C1, 'both'+'second' = C2, 'first' and 'second' share no triple - proved on the real function from "
+            "the C01 contracts of Graph.__mul__ / __sub__ (for whatever to_canonical_graph returns)",
+        ],
+        "clauses_not_decided": [
+            "that to_canonical_graph / to_isomorphic / isomorphic decide isomorphism (colour refinement + search over "
+            "individualisations: _TripleCanonicalizer._traces, _refine, Color.distinguish) - a search procedure whose "
+            "correctness is a graph-theoretic theorem, outside what function contracts + SMT can carry; bounded stand-in "
+            "against brute-force search over all blank-node bijections on 23 symmetric structures (<= 7 blank nodes)",
+            "skolemize/de_skolemize round trip (string/URL parsing): bounded only",
+        ],
+        "explanation": "Only the set-algebra part of the property is within reach of contracts; the canonicalisation "
+                       "algorithm is compared with brute force on small symmetric graphs.",
+        "assumptions": A_COMMON,
+        "level_text": "Proof of the graph_diff partition laws relative to the canonical graphs; isomorphism decision itself "
+                      "bounded (brute force on <= 7 blank nodes); 'other'.",
+        "level_note": "Trusted: to_canonical_graph as an external function returning a fresh graph; C01 operator contracts.",
+    },
+    "C03": {
+        "modules": ["contracts.c03_lists"],
+        "claim_level": "other",
+        "design_ref": "6.3",
+        "technique": TECH,
+        "clauses_decided": [
+            "termination on cyclic / malformed rdf:List structures, Turtle family: TurtleSerializer.isValidList and "
+            "LongTurtleSerializer.isValidList terminate on every finite graph (variant: first stop index of the rdf:rest "
+            "chain minus the iteration counter) and return True exactly for a chain that ends without revisiting a cell "
+            "and whose cells carry nothing but rdf:first / rdf:rest - so a cyclic or annotated list is never written in "
+            "( ... ) form, where its extra triples would be lost (proved, ghost chain + witness map)",
+        ],
+        "clauses_not_decided": [
+            "that parse(serialize(g)) is isomorphic to g with identical terms: string escaping (_quote_encode, "
+            "_literal_n3), qname computation, the recursive descent / SAX / JSON parsers - string grammars outside what "
+            "PyVC + z3/cvc5 string theories decide (replace_all chains time out): bounded stand-in only, 35 graphs x 8 "
+            "serializers x 2 option sets, 20 s termination alarm",
+            "doList / p_squared / s_squared control flow, RDF/XML and JSON-LD list handling: bounded only",
+        ],
+        "explanation": "The one structural function that decides whether a list is abbreviated (and that used to loop "
+                       "forever) is proved; the text-level round trip is a bounded differential run.",
+        "assumptions": A_COMMON,
+        "level_text": "Proof of isValidList (termination + exact acceptance condition) for Turtle/N3/long Turtle; the "
+                      "round trip itself is bounded; 'other'.",
+        "level_note": "Trusted: existence of the first stop index in a finite graph (pigeonhole), Graph.value / "
+                      "predicate_objects as functions of the graph; rdflib.compare.isomorphic as oracle in the bounded run.",
+    },
+    "C05": {
+        "modules": ["contracts.c12_labels"],
+        "claim_level": "other",
+        "design_ref": "6.5",
+        "technique": TECH,
+        "clauses_decided": [
+            "N-Triples / N-Quads documents: a blank node label repeated inside one document denotes one node and different "
+            "labels different nodes (W3CNTriplesParser.nodeid against the label-map invariant - proved; shared with C12)",
+        ],
+        "clauses_not_decided": [
+            "that every legal spelling (quoting styles, escapes, prefixes, relative IRIs, abbreviations, comments) parses to "
+            "the same graph; the five ways of handing a document to parse(); that N-Triples / N-Quads output matches the "
+            "W3C grammar and XML / JSON outputs are well-formed: recursive descent / regex / SAX / JSON code over strings - "
+            "bounded stand-in only (10 documents spelling one 16-triple graph x 5 input kinds; falsy list members; label "
+            "scope across TriG / N-Quads graph blocks; the C03 zoo against a strict line grammar)",
+        ],
+        "explanation": "Only the label-to-node mapping is a data-structure property within reach; everything else about "
+                       "concrete syntax is bounded.",
+        "assumptions": A_COMMON,
+        "level_text": "Proof of the blank-node label mapping of the N-Triples/N-Quads reader; all spelling clauses bounded; "
+                      "'other'.",
+        "level_note": "Trusted: BNode() freshness; the strict line grammar in bounded/c05.py is a transcription of the RDF "
+                      "1.1 N-Triples/N-Quads EBNF.",
+    },
+    "C06": {
+        "modules": ["contracts.c06_nquads"],
+        "claim_level": "other",
+        "design_ref": "6.6",
+        "technique": TECH,
+        "clauses_decided": [
+            "N-Quads serializer (NQuadsSerializer.serialize): the output consists of exactly one row per (triple, graph) pair "
+            "of the dataset, each carrying the name of the graph the triple is in, plus the final newline - nothing is "
+            "dropped, duplicated into another graph or written under another name (proved: nested loop invariants over "
+            "the ghost output set; _nq_row / encode as functions of their arguments)",
+            "store level: a triple added to graph g is in exactly G(g) - the C01/C02 contracts",
+        ],
+        "clauses_not_decided": [
+            "the row text itself (_nq_row escaping), the N-Quads parser (parseline -> get_context(name).add) and the other "
+            "five quad syntaxes (TriG, TriX, JSON-LD, HexTuples, RDF Patch): string grammars / SAX / JSON trees - bounded "
+            "stand-in only: 11 datasets x 6 syntaxes round trip up to blank-node renaming; RDF Patch diff of every ordered "
+            "pair of 8 ground datasets",
+        ],
+        "explanation": "The quad-to-row mapping of the N-Quads writer is a data-structure property and is proved; text "
+                       "grammars are outside the family and are bounded.",
+        "assumptions": A_COMMON,
+        "level_text": "Proof that the N-Quads writer emits each triple once per graph it is in, under that graph's name; "
+                      "everything textual and the other syntaxes are bounded; 'other'.",
+        "level_note": "Trusted: Graph iteration yields the graph's triples (C01), Dataset.contexts() lists the graphs (C02), "
+                      "_nq_row/encode uninterpreted.",
+    },
     "C18": {
         "modules": ["contracts.c18_auditable"],
         "claim_level": "other",
@@ -383,7 +484,7 @@ PROPS = {
                       "of tools/frame.py, the C02 contracts behind the allowed sites.",
     },
     "C12": {
-        "modules": [],
+        "modules": ["contracts.c12_labels"],
         "extra": [{"kind": "venv", "name": "frame-checker", "script": "tools/frame_check.py", "args": ["--prop", "C12"]}],
         "claim_level": "other",
         "design_ref": "6.12",
@@ -395,10 +496,14 @@ PROPS = {
             "remove_graph / remove_context / update / rollback / destroy reaches the sink graph, its dataset or anything "
             "on its store (frame obligations over the real call graph); with C01's add contract (Q' is a superset of Q) "
             "existing triples in any graph are never removed or altered",
+            "label scoping, N-Triples/N-Quads (W3CNTriplesParser.nodeid): a label already in the parse's label map gives "
+            "its node, a new label gives a node that did not exist before (BNode() freshness) and is recorded; the map "
+            "stays injective - one label one node, different labels different nodes, never an existing node (proved)",
         ],
         "clauses_not_decided": [
-            "blank-node label scoping per parse call and 'the result is the RDF merge' (needs the parsers' functional "
-            "correctness): bounded stand-in only (two documents / same document twice, every syntax)",
+            "label scoping for the other syntaxes (Turtle/N3 anonymousNode, RDF/XML handler.bnode, TriX get_bnode, JSON-LD "
+            "_bnode, HexTuples) and the reset of the map per parse call: bounded stand-in only (two documents / same "
+            "document twice, every syntax)",
         ],
         "explanation": "Same effect checker as C13 with the removing/overwriting operations as the forbidden set.",
         "assumptions": A_COMMON,
